@@ -349,6 +349,26 @@ func templateForkOrderProg(plan *Tape) *Prog {
 		top.Outs = append(top.Outs, Field{"inner", mapOf(intT)})
 		top.Ret = append(top.Ret, Bind{"inner", ref("INNER", "ys"), false})
 	}
+	if plan.Draw(2) == 0 {
+		// a pipeline whose outputs come from different stages, map-called over a
+		// run-time collection, its whole output struct bound at once (the merge
+		// needs one of the child stages as its fork node: which one must not
+		// depend on map order)
+		rs := &StructDef{Name: "RS", Fields: []Field{{"s", intT}, {"p", intT}, {"q", intT}}}
+		p.Structs = append(p.Structs, rs)
+		for _, nm := range []string{"ADD", "MUL", "SUB"} {
+			p.Stages = append(p.Stages, &StageDef{Name: nm, SrcKind: "comp", Ins: []Field{{"x", intT}}, Outs: []Field{{"r", intT}}})
+		}
+		both := &PipelineDef{Name: "BOTH", Ins: []Field{{"x", intT}}, Outs: []Field{{"s", intT}, {"p", intT}, {"q", intT}}}
+		for _, nm := range []string{"ADD", "MUL", "SUB"} {
+			both.Calls = append(both.Calls, &CallDef{Callee: nm, Id: nm, Binds: []Bind{{"x", self("x"), false}}})
+		}
+		both.Ret = []Bind{{"s", ref("ADD", "r"), false}, {"p", ref("MUL", "r"), false}, {"q", ref("SUB", "r"), false}}
+		p.Pipelines = append(p.Pipelines, both)
+		top.Calls = append(top.Calls, &CallDef{Callee: "BOTH", Id: "BOTH", Mapped: true, Binds: []Bind{{"x", ref("MAKE", "list", "value"), true}}})
+		top.Outs = append(top.Outs, Field{"both", Ty{Base: "RS", Dims: "a"}})
+		top.Ret = append(top.Ret, Bind{"both", ref("BOTH"), false})
+	}
 	p.Pipelines = append(p.Pipelines, top)
 	p.Top = &CallDef{Callee: "TOPF", Id: "TOPF", Binds: []Bind{{"n", &Expr{Kind: ELit, Val: int64(2 + plan.Draw(7)), T: intT}, false}}}
 	return p
